@@ -121,6 +121,12 @@ func main() {
 			}
 		}
 		os.Exit(0)
+	case "mutants":
+		n := 12
+		if v := os.Getenv("GOVC_MUTANTS_PER_FUNC"); v != "" {
+			fmt.Sscanf(v, "%d", &n)
+		}
+		os.Exit(runMutants(prop, *repo, *verifDir, n, *workers))
 	case "check":
 		os.Exit(runCheck(prop, *repo, *verifDir, *tier, *only, *workers, *verbose, *noEvidence))
 	default:
@@ -154,7 +160,7 @@ func runCheck(prop, repo, verifDir, tier, only string, workers int, verbose, noE
 	for _, k := range cs.Order {
 		c := cs.Funcs[k]
 		if only != "" {
-			if k == only {
+			if k == only || strings.HasPrefix(k, only+"#") {
 				keys = append(keys, k)
 			}
 			continue
